@@ -51,13 +51,24 @@ pub struct Case {
 
 fn strategy(ctx: &Ctx) -> BoxedStrategy<Case> {
     let len = if ctx.tier.is_thorough() { 12 } else { 6 };
-    (repo_cfg(), repo_cfg())
-        .prop_flat_map(move |(cfg, mut dst_cfg)| {
+    (
+        repo_cfg(),
+        repo_cfg(),
+        // a blob-rich pack: (fixed chunk size, number of chunks, content seed) — its header is
+        // longer than any fixed guess (64 KiB = 1771 plain / 1598 compressed entries)
+        prop::option::weighted(0.12, (3u32..=8, 1500u32..2900, any::<u64>())),
+    )
+        .prop_flat_map(move |(mut cfg, mut dst_cfg, blob_rich)| {
             if dst_cfg.key_seed == cfg.key_seed {
                 dst_cfg.key_seed += 1;
             }
+            if let Some((k, _, _)) = blob_rich {
+                cfg.chunker = crate::repo::ChunkerCfg::Fixed { size: k };
+                cfg.data_pack = crate::repo::PackCfg { size: None, grow: None, limit: None };
+            }
             let mut p = super::c07::params(&cfg);
-            p.file_cap = 150_000;
+            // (with the tiny chunks of a blob-rich case all other files stay at a few chunks)
+            p.file_cap = blob_rich.map_or(150_000, |(k, _, _)| 40 * k);
             (
                 Just(cfg),
                 Just(dst_cfg),
@@ -72,16 +83,40 @@ fn strategy(ctx: &Ctx) -> BoxedStrategy<Case> {
                 ),
                 prop_oneof![2 => Just(0u16), 3 => any::<u16>()],
                 prop::bool::weighted(0.2),
+                Just(blob_rich),
             )
         })
-        .prop_map(|(cfg, dst_cfg, tree, ops, extras, del_mask, read_all)| Case {
-            cfg,
-            dst_cfg,
-            tree,
-            ops,
-            extras,
-            del_mask,
-            read_all,
+        .prop_map(|(cfg, dst_cfg, mut tree, ops, extras, del_mask, read_all, blob_rich)| {
+            if let Some((k, n, seed)) = blob_rich {
+                if let Some(ch) = tree.children_mut() {
+                    if !ch.iter().any(|c| c.name == b"zz-many-blobs") {
+                        ch.push(MNode {
+                            name: b"zz-many-blobs".to_vec(),
+                            kind: crate::model::MKind::File {
+                                content: crate::model::Content(vec![crate::model::Piece::Rand { seed, skip: 0, len: k * n }]),
+                            },
+                            perm: 0o644,
+                            mtime: crate::model::MTime(1_600_000_000, 0),
+                            ctime: crate::model::MTime(1_600_000_000, 0),
+                            uid: 0,
+                            gid: 0,
+                            inode: 9_500_001,
+                            device: 7,
+                            links: 1,
+                        });
+                    }
+                }
+                tree.normalise();
+            }
+            Case {
+                cfg,
+                dst_cfg,
+                tree,
+                ops,
+                extras,
+                del_mask,
+                read_all,
+            }
         })
         .boxed()
 }
@@ -300,8 +335,14 @@ pub fn run(c: &Case, _ctx: &Ctx) -> Outcome {
         CheckVerdict::Inconclusive(_) => out = out.class("check_inconclusive"),
         CheckVerdict::Clean => {}
     }
+    let rich = flatten_has_many(&c.tree);
     out.class_if(c.del_mask == 0, "all_index_files_deleted")
         .class_if(non_backup_packs, "non_backup_packs")
+        .class_if(rich, "pack_with_header_above_64KiB")
+}
+
+fn flatten_has_many(t: &MNode) -> bool {
+    t.children().iter().any(|c| c.name == b"zz-many-blobs")
 }
 
 // ------------------------------------------------------------------ header codec
